@@ -156,6 +156,8 @@ def build(c):
         if r is None:
             continue
         okw[key] = fl(r[1]) if r[0] == 's' else np.array([fl(x) for x in r[1]])
+    if c.get('res_ref') is not None:
+        okw['res_ref'] = float(c['res_ref'])
     A = np.array([[fl(v) for v in row] for row in c['A']]) if 'A' in c else np.eye(n)
     b = np.array([fl(v) for v in c['b']]) if 'b' in c else np.zeros(n)
     p = om.Problem()
@@ -282,7 +284,13 @@ def do_newton(c):
     kind = 'newton:%s:%s:%s' % (c['ls'], c['method'], 'negscale' if np.any(scale < 0) else 'posscale')
     if err is not None and not log:
         kind += ':no-iteration'
-    return {'res': '__none__', 'ok': ok, 'msg': msg, 'sig': sig, 'kind': kind}
+    res = '__none__'
+    if c.get('exact') and err is None:
+        # dyadic data, power-of-two scaling, identity jacobian: every float operation of the iteration is exact;
+        # the physical outputs (through the public API) are compared exactly with the model's phys_update
+        res = [q(v) for v in np.asarray(p.get_val('c.x')).ravel()]
+        kind += ':exact'
+    return {'res': res, 'ok': ok, 'msg': msg, 'sig': sig, 'kind': kind}
 
 
 def handle(c):
